@@ -74,6 +74,27 @@ def answer (line : String) : String :=
     match bytesOfHex h with
     | some s => "ok " ++ toString (crc32c s).toNat ++ " " ++ toString (Spec.crc32c s)
     | none => "bad-op"
+  | ["rx", h] =>
+    match bytesOfHex h with
+    | some s =>
+      (match decodeBundle s with
+       | .ok b => "ok " ++ showBundle b ++ " ops=ok"
+       | .err _ => "err"
+       | .panic _ => "panic")
+    | none => "bad-op"
+  | ["fault", _, h] =>
+    match bytesOfHex h with
+    | some s => resStr showBundle (decodeBundle s)
+    | none => "bad-op"
+  | ["cor", h, _] =>
+    match bytesOfHex h with
+    | some s =>
+      (match decodeBundle s with
+       | .ok b => "ok " ++ showBundle b ++ " crcok=" ++ showBool b.crcValid ++ " same="
+                  ++ showBool (([0x9f] ++ encBlocks b ++ [0xff]) == s)
+       | .err _ => "err"
+       | .panic _ => "panic")
+    | none => "bad-op"
   | ["dec", h] =>
     match bytesOfHex h with
     | some s => resStr showBundle (decodeBundle s)
